@@ -362,6 +362,12 @@ func runHandlerClosesBody(c *Ctx) {
 			if fn := Callee(info, call); fn != nil && (fn.Origin() == u.emit || u.closers[fn.Origin()]) {
 				return []st{{}}
 			}
+			// a helper that is handed the body's lowest captured local takes over the obligation
+			for _, a := range call.Args {
+				if id, ok := ast.Unparen(a).(*ast.Ident); ok && idxVars[info.Uses[id]] {
+					return []st{{}}
+				}
+			}
 			if opens(call) {
 				if bad[s.marker] == nil {
 					bad[s.marker] = call
